@@ -26,9 +26,7 @@ def bindingTyOf (m : Module) (b : GroupBinding) : G Ty :=
 /-- `bind_group_layout`: the fields of `BindGroupLayoutN` -/
 def layoutFields (m : Module) (bs : List GroupBinding) : G (List (String × ResKind)) :=
   bs.mapM fun b => do
-    let name ← match b.name with
-      | some n => pure n
-      | none => .error (.panic "unwrap:binding-name")
+    let name ← unwrapName "binding-name" b.name
     let ty ← bindingTyOf m b
     match bindClass ty with
     | .buffer => pure (name, ResKind.buffer)
@@ -87,9 +85,7 @@ def layoutEntry (m : Module) (gs : StageMap) (b : GroupBinding) : G REntry := do
 /-- the `entries:` of `bind_group` -/
 def bindEntries (m : Module) (bs : List GroupBinding) : G (List RBindEntry) :=
   bs.mapM fun b => do
-    let name ← match b.name with
-      | some n => pure n
-      | none => .error (.panic "unwrap:binding-name")
+    let name ← unwrapName "binding-name" b.name
     let ty ← bindingTyOf m b
     match bindClass ty with
     | .buffer => pure ⟨b.binding, .buffer, name⟩
